@@ -17,7 +17,8 @@ Event "run":  {ev, tid, src: gen|fq|rand|fqrand, method, K, mh, pe, bad, tfs, st
                ops:[{op:"w"|"c", p, x, raised, att:[{p, append, nopen, ok}], open:[paths with an OS descriptor],
                      tracked:[paths with a handle in openHandles]}],
                final:[{p, recs:[..], ok}], fds_end, exp:{has, ops:[{raised, open}], disk:[[..]..]}}
-Event "split": {ev, tid, max_handles, recs:[value per input record, 0 = no tag], passes, out:[{v, idx:[..]}]}
+Event "split": {ev, tid, max_handles, recs:[raw value id per input record, 0 = no tag], fmap:[output file id per raw value id],
+                passes, out:[{v: file id, idx:[..]}]}
 No judgement here: TLC (Trace_HandleLimiter) decides."""
 import contextlib
 import errno
@@ -167,8 +168,8 @@ class SerialPool:
 class Rec:
     """Minimal stand-in for a demultiplexed record: FastqHandle reads .tags and str()."""
 
-    def __init__(self, cell, x):
-        self.tags = {'bi': cell, 'MX': 'mx'}
+    def __init__(self, cell, x, mx='mx'):
+        self.tags = {'bi': cell, 'MX': mx}
         self.x = x
 
     def __str__(self):
@@ -183,9 +184,17 @@ def run_scenario(hl_mod, fh_mod, workdir, scn, src, method, det_clock):
     via_fq = src.startswith('fq')
     prefix = os.path.join(workdir, 'o')
 
+    # cell identifiers as the demultiplexer stores them: integer barcode indices starting at 0 (falsy but valid) in the
+    # replayed TLC behaviours and half of the random runs, strings otherwise; MX is the integer 0 in some runs
+    int_bi = src == 'fq' or scn['K'] % 2 == 0
+    mx = 0 if scn['pe'] % 2 == 0 else 'mx'
+
+    def cell_of(p):
+        return p - 1 if int_bi else 'c%d' % p
+
     def path_of(p):
         if via_fq:
-            return '%s.c%d.mx.R1.fastq.gz' % (prefix, p)
+            return '%s.%s.%s.R1.fastq.gz' % (prefix, cell_of(p), mx)
         return os.path.join(workdir, 'f%d.%s' % (p, 'gz' if method == 1 else 'txt'))
 
     ids = {}
@@ -223,7 +232,7 @@ def run_scenario(hl_mod, fh_mod, workdir, scn, src, method, det_clock):
             with contextlib.redirect_stdout(sink):
                 if o['op'] == 'w':
                     if via_fq:
-                        fh.write([Rec('c%d' % o['p'], o['x'])])
+                        fh.write([Rec(cell_of(o['p']), o['x'], mx)])
                     else:
                         lim.write(path_of(o['p']), '%d\n' % o['x'], method=method)
                 else:
@@ -281,10 +290,25 @@ def split_case(rng, workdir, k):
     n = rng.randint(1, 24)
     header = bamgen.make_header([('chrA', 10000)])
     vals = [rng.choice([0] + list(range(1, nvals + 1)) * 3) for _ in range(n)]     # 0 = record without the tag
+    # distinct raw tag values may sanitise (get_valid_filename) to the same file name: fmap[v] = file of raw value v
+    # (canonical numbering); the raw strings are built FROM this map: 'cell_<f>', 'cell <f>', 'cell_<f>!', ' cell_<f>'
+    fmap, used = [], {}
+    for v in range(1, nvals + 1):
+        top = max(fmap) if fmap else 0
+        f = top + 1 if (not fmap or rng.random() < 0.6 or used.get(top, 0) >= 4) else rng.randint(1, top)
+        if used.get(f, 0) >= 4:
+            f = top + 1
+        fmap.append(f)
+        used[f] = used.get(f, 0) + 1
+    forms = ['cell_%d', 'cell %d', 'cell_%d!', ' cell_%d']
+    seen_f, rawname = {}, {}
+    for v, f in enumerate(fmap, 1):
+        rawname[v] = forms[seen_f.get(f, 0)] % f
+        seen_f[f] = seen_f.get(f, 0) + 1
     reads = []
     for i, v in enumerate(vals):
         reads.append(bamgen.make_read(header, 'r%d' % (i + 1), 'chrA', 10 * i, 'ACGT',
-                                      tags={'SM': 'cell%d' % v} if v else {'XX': 1}))
+                                      tags={'SM': rawname[v]} if v else {'XX': 1}))
     inp = os.path.join(workdir, 'in.bam')
     bamgen.write_bam(inp, header, reads, sort=False)
     outdir = os.path.join(workdir, 'out') + '/'
@@ -330,9 +354,9 @@ def split_case(rng, workdir, k):
             except Exception:
                 ok = False
             v = fn[:-4]
-            out.append({'v': int(v[4:]) if v.startswith('cell') and v[4:].isdigit() else -1, 'idx': idx, 'ok': ok})
+            out.append({'v': int(v[5:]) if v.startswith('cell_') and v[5:].isdigit() else -1, 'idx': idx, 'ok': ok})
     shutil.rmtree(workdir)
-    return {'ev': 'split', 'max_handles': maxh, 'recs': vals, 'passes': passes[0], 'raised': raised, 'out': out}
+    return {'ev': 'split', 'max_handles': maxh, 'recs': vals, 'fmap': fmap, 'passes': passes[0], 'raised': raised, 'out': out}
 
 
 def main():
